@@ -136,7 +136,13 @@ FirstNameOf == CHOOSE a \in Names : \A b \in Names : RankOf(a) <= RankOf(b)
 (* that follow or do not follow links.                                     *)
 (***************************************************************************)
 SubS == AbsP(<<"w", "s">>)
+\* (with three names every link points at itself or at the NEXT name - chains and cycles of every length up to
+\* three still occur, and the universe stays at 343 graphs instead of 3375)
+NextName(x) == CASE x = "a" -> "b" [] x = "b" -> "c" [] OTHER -> "a"
 LinkShapes(x) ==
+    IF Cardinality(Names) >= 3
+    THEN {RelP(<<x>>), RelP(<<NextName(x)>>), RelP(<<"..", "w", NextName(x)>>), AbsP(<<"w", NextName(x)>>), RelP(<<"s">>)}
+    ELSE
     {RelP(<<y>>) : y \in Names} \cup {RelP(<<"..", "w", y>>) : y \in Names} \cup {AbsP(<<"w", y>>) : y \in Names}
     \cup {RelP(<<"s", "f">>), RelP(<<"s", "u">>), RelP(<<"s">>)}
 Kinds(x) == {[k |-> "none", t |-> NoPath], [k |-> "file", t |-> NoPath], [k |-> "dir", t |-> NoPath]}
